@@ -1799,6 +1799,14 @@ func (v *FnVC) loopHead(l *Loop, pre *State, reach *Term) *State {
 			ls.variant = append(ls.variant, v.define("variant", envH.int(e)))
 		}
 	}
+	if len(l.Spec.Splits) > 0 {
+		var cases []*Term
+		for _, c := range l.Spec.Splits {
+			cases = append(cases, v.evalClause(envH, c))
+		}
+		v.oblige("split", "split-cover@"+ln, reach, Or(cases...), fmt.Sprintf("%s:%d", shortFile(v.fn.Prog.Fset.Position(v.fn.Pos()).Filename), l.Line), "the loop-level case split covers every head state")
+		ls.cases = cases
+	}
 	return h
 }
 
